@@ -103,6 +103,7 @@ var family string
 var strikes = map[string]int{}
 var tripped = map[string]bool{}
 var systematic bool
+var definite bool // a scenario ended on an observation that is a violation whatever the timing (ABORT)
 
 func runSeeded(seed int64, f func(rr *rand.Rand)) {
 	fam := family
@@ -129,14 +130,18 @@ func runSeeded(seed int64, f func(rr *rand.Rand)) {
 		emit(c.op, c.args, c.res, fs+"seed="+fmt.Sprintf("%x", seed)+extra)
 	}
 	if !strings.Contains(a.res, "HANG") {
+		if strings.HasPrefix(a.res, "ABORT:") {
+			definite = true
+		}
 		tag(a, "")
 		return
 	}
 	sig1 := lastHangSig
 	strikes[fam]++
-	if systematic {
-		// another scenario has already blocked twice on its own in this run: no second 30 s
-		a.res += " [not re-run: a scenario already blocked twice in this run; blocked: " + sig1 + "]"
+	if systematic || definite {
+		// another scenario has already blocked twice on its own in this run, or the run already
+		// has a violation that does not depend on time: no second 30 s
+		a.res += " [not re-run: the run already has a confirmed failure; blocked: " + sig1 + "]"
 		tag(a, ",hang-noretry")
 		strikes[fam] = 3
 		return
@@ -161,6 +166,9 @@ func runSeeded(seed int64, f func(rr *rand.Rand)) {
 func hx(n int) string { return fmt.Sprintf("%x", n) }
 
 type hang struct{ what string }
+
+// abort ends a scenario at once on an observation that already is a violation (no watchdog)
+type abort struct{ what string }
 
 func waitFor(what string, cond func() bool) {
 	deadline := time.Now().Add(watchdog)
@@ -776,8 +784,54 @@ func (d *driver) serveRun() {
 			d.ob("BADGEN")
 		}
 		if a == "ok" {
-			c.reply <- reply{assign: map[string][]int32{d.topics[0]: {0, 1}}}
-			d.lab("Sy:ok")
+			// the member assignment of the answer is part of the input space: empty (stand-by
+			// member), not covering every configured topic, every topic, a topic that is not
+			// configured, a topic with no partition
+			asg := map[string][]int32{}
+			var toks []string
+			kind := d.r.Intn(6)
+			if d.scripted {
+				kind = 1
+			}
+			switch kind {
+			case 0:
+				d.feats["assign-empty"] = true
+			case 1:
+				asg[d.topics[0]] = []int32{0, 1}
+				toks = append(toks, "0=0.1")
+				if len(d.topics) > 1 {
+					d.feats["assign-partial"] = true
+				}
+			case 2:
+				for i, t := range d.topics {
+					asg[t] = []int32{int32(i), int32(i + 2)}
+					toks = append(toks, hx(i)+"="+hx(i)+"."+hx(i+2))
+				}
+				if len(d.topics) > 1 {
+					d.feats["assign-several-topics"] = true
+				}
+			case 3:
+				last := len(d.topics) - 1
+				asg[d.topics[last]] = []int32{5}
+				toks = append(toks, hx(last)+"=5")
+				if last > 0 {
+					d.feats["assign-partial"] = true
+				}
+			case 4:
+				asg["not-configured"] = []int32{0}
+				toks = append(toks, "9=0")
+				d.feats["assign-foreign-topic"] = true
+			default:
+				asg[d.topics[0]] = []int32{}
+				toks = append(toks, "0=")
+				d.feats["assign-topic-without-partitions"] = true
+			}
+			c.reply <- reply{assign: asg}
+			if len(toks) == 0 {
+				d.lab("Sy:ok:e")
+			} else {
+				d.lab("Sy:ok:" + strings.Join(toks, ","))
+			}
 			d.pc = "fetch"
 			return
 		}
@@ -1153,6 +1207,14 @@ func (d *driver) recvNext(n int, want string) {
 			// what happened to the generation before it was handed out could not be observed:
 			// catch up with it now
 			g := d.gens[k]
+			if !g.closed {
+				// nothing of this generation has ended: the run goroutine started the heartbeat and one
+				// watcher per configured topic BEFORE handing it out, whatever was assigned
+				if st := res.gen.VerifState(); !st.Closed && st.Routines != g.routines {
+					d.ob(fmt.Sprintf("BADSTARTS:%x/%x", st.Routines, g.routines))
+					panic(abort{fmt.Sprintf("generation handed out by Next with %d accounted functions, expected %d (heartbeat + one watcher per configured topic)", st.Routines, g.routines)})
+				}
+			}
 			waitFor("published generation to reach the expected accounting state", func() bool {
 				st := res.gen.VerifState()
 				// (its heartbeat / watchers may already have left on ctx.Done(); they are
@@ -1431,6 +1493,10 @@ func e2eCase(r *rand.Rand, forced string) {
 		d.feats["long-backoff"] = true
 	}
 	d.topics = []string{"t0", "t1"}[:max(1, d.nwatch)]
+	if d.nwatch == 0 && forced == "" && r.Intn(2) == 0 {
+		d.topics = []string{"t0", "t1"} // two configured topics, no watchers
+		d.feats["topics=2"] = true
+	}
 	cfg := kafka.ConsumerGroupConfig{
 		ID: "grp", Brokers: []string{"bootstrap.test:9092"}, Topics: d.topics,
 		HeartbeatInterval: 2 * time.Millisecond, PartitionWatchInterval: 2 * time.Millisecond,
@@ -1452,9 +1518,14 @@ func e2eCase(r *rand.Rand, forced string) {
 	}
 	d.cg = cg
 	hung := ""
+	aborted := ""
 	func() {
 		defer func() {
 			if x := recover(); x != nil {
+				if a, ok := x.(abort); ok {
+					aborted = a.what
+					return
+				}
 				h, ok := x.(hang)
 				if !ok {
 					panic(x)
@@ -1642,9 +1713,17 @@ func e2eCase(r *rand.Rand, forced string) {
 		}
 	}
 	res := strings.Join(d.obs, " ") + " # " + strings.Join(fin, " ") + " # exit=" + b01(d.pc == "exited") + " leavefull=" + d.leaveFull() + " mon=ok"
+	if aborted != "" {
+		hung = aborted
+	}
 	if hung != "" {
 		res = "HANG:" + hung + " after " + strings.Join(d.obs, " ")
 		d.feats["hang"] = true
+		if aborted != "" {
+			res = "ABORT:" + aborted + " after " + strings.Join(d.obs, " ")
+			delete(d.feats, "hang")
+			d.feats["abort"] = true
+		}
 		// unblock whatever is left so that goroutines do not pile up
 		go func() {
 			for i := 0; i < 2000; i++ {
